@@ -998,7 +998,7 @@ impl<'a> JoinOutput<'a> {
                         prev_def_stream
                             .map(|prev| quote! { #prev #def_stream })
                             .or(def_stream),
-                        quote! { #initial_expr },
+                        quote! { (#initial_expr) },
                     )
                 }
             }
